@@ -416,8 +416,9 @@ impl RowProof {
             );
         }
 
-        let length = self.end_row - self.start_row + 1;
-        if length as usize != self.proofs.len() {
+        // rows 0..=u16::MAX are one more than u16 can count
+        let length = usize::from(self.end_row - self.start_row) + 1;
+        if length != self.proofs.len() {
             bail_verification!(
                 "length based on start_row and end_row ({}) != length of proofs ({})",
                 length,
